@@ -211,7 +211,10 @@ fn settings<T: Fl>() -> Vec<Setting<T>> {
 
 fn bases<T: Fl>(n: usize) -> Vec<Vec<T>> {
     let g: Vec<T> = alphabet::generic(n, 1).iter().map(|&r| rq::<T>(r)).collect();
-    vec![g.clone(), g.iter().map(|x| *x * T::c(1e6)).collect(), g.iter().map(|x| *x * T::c(1e-6)).collect()]
+    // the last one: components of very different sizes side by side (one pair decided by the absolute clause of a
+    // comparison, its neighbour by the relative one)
+    let mixed: Vec<T> = g.iter().enumerate().map(|(j, x)| *x * T::c([1e-9, 1e3, 1.0, 1e6][j % 4])).collect();
+    vec![g.clone(), g.iter().map(|x| *x * T::c(1e6)).collect(), g.iter().map(|x| *x * T::c(1e-6)).collect(), mixed]
 }
 
 fn approx_system<T: Fl, C: Ap<T>>(rep: &mut Report) {
@@ -225,7 +228,7 @@ fn approx_system<T: Fl, C: Ap<T>>(rep: &mut Report) {
     rep.cases(
         &format!("approx/{}", C::NAME),
         T::NAME,
-        &format!("3 bases (generic, x1e6, x1e-6) x 9 comparison settings x <= {k} of {n} components perturbed to just inside / on / just outside the tolerance"),
+        &format!("4 bases (generic, x1e6, x1e-6, mixed magnitudes) x 9 comparison settings x <= {k} of {n} components perturbed to just inside / on / just outside the tolerance"),
         total,
         Guard::states(50).distinct(20).need("equal", 5).need("unequal", 5),
         |i, ctx| {
